@@ -117,6 +117,11 @@ func isOnCurve(c elliptic.Curve, x, y *big.Int) bool {
 	if x == nil || y == nil {
 		return false
 	}
+	// coordinates are field elements: the curve implementations reduce their input, so a
+	// non-canonical alias such as (x+p, y) would otherwise be accepted as a distinct ECPoint
+	if p := c.Params().P; x.Sign() < 0 || y.Sign() < 0 || x.Cmp(p) >= 0 || y.Cmp(p) >= 0 {
+		return false
+	}
 	return c.IsOnCurve(x, y)
 }
 
